@@ -315,6 +315,7 @@ def run(ctx):
         distinct.add(b)
     env_ok = 0
     obs = set()
+    not_composed = []
     for (scn, desc, reqver, o, reqb), out in zip(sess, outs[len(order):]):
         if out.startswith("bad-"):
             raise RuntimeError("driver: %s" % out)
@@ -326,6 +327,8 @@ def run(ctx):
         faults = m.get("faults", [])
         for it in walk_items(m["tree"]):
             obs.add((scn.split(":")[0],) + it)
+        if m.get("composed") is False:
+            not_composed.append({"scenario": scn, "response_hex": o.hex()})
         if faults:
             for f in faults:
                 ctx.report("c02:envelope:%s" % f,
@@ -335,6 +338,15 @@ def run(ctx):
                             "response_hex": o.hex()})
         else:
             env_ok += 1
+    cov["responses_recomposed_by_model"] = len(sess) - len(not_composed)
+    # success items without a payload (Activate etc. always carry one) or other shapes the transcription of the
+    # response composition does not produce: a correspondence matter, no failing input by itself
+    if not_composed and not any(v["signature"].startswith("c02:envelope") for v in ctx.violations):
+        ctx.report("correspondence:response-composition",
+                   "%d responses are not what Kmip.Envelope.buildResponse composes from their own contents, e.g. %s"
+                   % (len(not_composed), json.dumps(not_composed[0])[:300]),
+                   {"broken": "correspondence Kmip.Envelope.buildResponse vs engine._process_batch/_build_response",
+                    "cases": not_composed[:5]}, no_input=True)
     cov["parsed"] = len(order) + len(sess)
     cov["parsed_ok"] = n_ok
     cov["envelopes_checked"] = len(sess)
